@@ -15,7 +15,18 @@ import (
 // hundredth derivation on one long-lived IKE SA object.
 // ---------------------------------------------------------------------------
 
+func c08Final(w *World) {
+	hk, _ := w.ext["c08_held"].([]heldVal)
+	for _, h := range hk {
+		if !bytes.Equal(h.buf, h.snap) {
+			w.violate("child_keys_changed_later", h.what, "Child SA keys derived at step %d changed after later operations on the IKE SA", h.step)
+			return
+		}
+	}
+}
+
 func init() {
+	finals["C08"] = c08Final
 	ops["child"] = opChild
 	props["C08"] = &PropDef{
 		ID: "C08", Level: "exploration",
@@ -174,6 +185,16 @@ func c08Check(w *World, s *Step, sa *SA, got *childKeys, res *callResult, uses i
 		if tres.class() == "ok" && tw.hash() != got.hash() {
 			w.violate("child_differs_from_fresh_sa", what, "derivation #%d on the long-lived IKE SA object differs from the same derivation on a fresh copy of that IKE SA", uses+1)
 		}
+	}
+	// the caller keeps the derived keys; they must still be these keys at the end of the history
+	hk, _ := w.ext["c08_held"].([]heldVal)
+	if len(hk) < 64 {
+		for _, b := range [][]byte{got.Ei, got.Ai, got.Er, got.Ar} {
+			if len(b) > 0 {
+				hk = append(hk, heldVal{b, clone(b), what, w.step})
+			}
+		}
+		w.ext["c08_held"] = hk
 	}
 	if uses > 0 {
 		w.nontriv = true
